@@ -290,6 +290,116 @@ CONDITIONS = [
     {"fn": "c24_listing_vs_writer", "quick": 60, "thorough": 240},
     {"fn": "c24_len_vs_writer", "quick": 20, "thorough": 60},
 ]
+# ---- Q4 schedules at lock granularity ---------------------------------------------------------------
+class SchedLock:
+    """Stand-in for threading.Lock inside liquid.utils.lru_cache: when thread A releases the lock for the
+    HOOK[0]-th time, 'thread B' (HOOK[1]) runs before A continues. Models every interleaving in which B
+    gets the lock between two of A's critical sections."""
+    HOOK = [None, None]
+    releases = 0
+
+    def __init__(self):
+        self._held = False
+
+    def locked(self):
+        return self._held
+
+    def acquire(self, *a):
+        self._held = True
+        return True
+
+    def release(self):
+        self._held = False
+        SchedLock.releases += 1
+        if SchedLock.HOOK[1] is not None and SchedLock.releases == SchedLock.HOOK[0]:
+            hook = SchedLock.HOOK[1]
+            SchedLock.HOOK[1] = None
+            hook()
+
+    def __enter__(self):
+        self.acquire()
+        return self
+
+    def __exit__(self, *a):
+        self.release()
+        return False
+
+
+_REAL_LOCK = M.Lock
+
+
+def c24_interleaved_ops(k0: int, k1: int, aop: int, akey: int, bop: int, bkey: int, at: int) -> bool:
+    """
+    pre: k0 != k1
+    pre: 0 <= aop <= 5 and 0 <= bop <= 2 and 1 <= at <= 3
+    post: _
+    """
+    # Thread A performs one public operation; thread B performs one write (set / delete / get) when A
+    # releases the lock for the at-th time (if A releases it that often). A must never fail, and what A
+    # returns must be what it would return with B's operation entirely before or entirely after it.
+    if excluded("c24_interleaved_ops", locals()):
+        return True
+    ModelOD.owner = None
+    M.Lock = SchedLock
+    try:
+        def fresh():
+            c = M.ThreadSafeLRUCache(2)
+            SchedLock.HOOK[1] = None
+            c[k0] = 10
+            c[k1] = 11
+            return c
+
+        def b_op(c):
+            if bop == 0:
+                c[bkey] = 99
+            elif bop == 1:
+                try:
+                    del c[bkey]
+                except KeyError:
+                    pass
+            else:
+                c.get(bkey)
+
+        def a_op(c):
+            if aop == 0:
+                return c.get(akey, -7)
+            if aop == 1:
+                try:
+                    return c[akey]
+                except KeyError:
+                    return "KeyError"
+            if aop == 2:
+                return akey in c
+            if aop == 3:
+                return len(c)
+            if aop == 4:
+                return list(c.items())
+            c[akey] = 55
+            return None
+        # sequential references: B before A, and A before B
+        c1 = fresh()
+        b_op(c1)
+        ref_ba = a_op(c1)
+        c2 = fresh()
+        ref_ab = a_op(c2)
+        # interleaved
+        c3 = fresh()
+        SchedLock.releases = 0
+        SchedLock.HOOK[0] = at
+        SchedLock.HOOK[1] = lambda: b_op(c3)
+        try:
+            got = a_op(c3)
+        except Exception:
+            return finish(False)
+        finally:
+            SchedLock.HOOK[1] = None
+        return finish(got == ref_ba or got == ref_ab)
+    finally:
+        M.Lock = _REAL_LOCK
+
+
+CONDITIONS.append({"fn": "c24_interleaved_ops", "quick": 90, "thorough": 400})
+
 ASSUMPTIONS = [
     "collections.OrderedDict is replaced by vf.stubs.ModelOD (documented API incl. move_to_end, popitem(last=), live views raising RuntimeError on mutation during iteration); validated against the real OrderedDict on all operation sequences <= 3 over 3 keys on every run",
     "thread schedules are modelled at lock / iterator-step granularity: another thread can run only when the lock is free (justified by the lock-discipline condition)",
